@@ -82,6 +82,12 @@ type Img struct {
 	Anns     []EntAnn    `json:"anns,omitempty"` // entity annotations of the objects of the wanted package
 }
 
+// EntObs: what the client API says about one entity.
+type EntObs struct {
+	Name, Schema string
+	Events       []string
+}
+
 // EntAnn: an object of the wanted package that carries an entity annotation (what walkSourceSchemas looks at).
 type EntAnn struct {
 	Pkg, Name, Entity string
@@ -169,6 +175,7 @@ type Result struct {
 	Methods  []MethodObs       `json:"methods,omitempty"`
 	Schemas  [][2]string       `json:"schemas,omitempty"`
 	Entities []string          `json:"entities,omitempty"`
+	EntObs   []EntObs          `json:"ent_obs,omitempty"` // entities of the client API: state schema and event names
 	Printed  map[string]string `json:"printed,omitempty"`
 	Extra    map[string]string `json:"extra,omitempty"`
 
@@ -500,6 +507,10 @@ func fieldAlt(f *schema_j5pb.Field) FTy {
 	switch t := f.Type.(type) {
 	case *schema_j5pb.Field_Object:
 		if r := t.Object.GetRef(); r != nil {
+			if t.Object.Flatten {
+				// a flattened object reference: the client merges the referenced object's properties (model: TRef "flatten")
+				return FTy{Alt: "flatten", Pkg: r.Package, Name: r.Schema}
+			}
 			return FTy{Alt: alt, Pkg: r.Package, Name: r.Schema}
 		}
 		return FTy{Alt: "inline-object"}
@@ -615,6 +626,11 @@ func observeClient(capi *client_j5pb.API, res *Result) {
 		}
 		for _, e := range p.StateEntities {
 			res.Entities = append(res.Entities, e.Name)
+			eo := EntObs{Name: e.Name, Schema: e.SchemaName}
+			for _, ev := range e.Events {
+				eo.Events = append(eo.Events, ev.Name)
+			}
+			res.EntObs = append(res.EntObs, eo)
 			if e.QueryService != nil && e.QueryService.Name != "" {
 				addSvc(e.QueryService)
 			}
